@@ -1489,12 +1489,15 @@ theorem class_names {c : ClassSrc} {k : Ctr} {a : ClassAst} {k' : Ctr} (h : spec
 
 /-! ## A component declared twice anywhere is rejected; no other kind of failure exists -/
 
+/-- Nothing in the class (at any depth) is declared twice and no import clause clashes. -/
+def ClassSrc.Clean (c : ClassSrc) : Prop := c.names.Nodup ∧ ∃ imps, importsFold c.imps [] = .ok imps
+
 mutual
 theorem class_deep_nodup (c : ClassSrc) (k : Ctr) (a : ClassAst) (k' : Ctr) (h : specClass c k = .ok (a, k')) :
-    ∀ c' ∈ c.deep, c'.names.Nodup := by
+    ∀ c' ∈ c.deep, c'.Clean := by
   match c with
   | .mk hd first ss =>
-    have hown := (class_names h).2
+    have hown : (ClassSrc.mk hd first ss).Clean := ⟨(class_names h).2, _, (class_extends h).2.2⟩
     simp only [specClass] at h
     split at h
     · cases h
@@ -1509,7 +1512,7 @@ theorem class_deep_nodup (c : ClassSrc) (k : Ctr) (a : ClassAst) (k' : Ctr) (h :
         · exact elems_deep_nodup first _ _ _ _ h1 c' hc'
         · exact sections_deep_nodup ss _ _ _ _ h2 c' hc'
 theorem elems_deep_nodup (es : Elems) (f : Frame) (k : Ctr) (f' : Frame) (k' : Ctr)
-    (h : specElems es f k = .ok (f', k')) : ∀ c' ∈ es.deep, c'.names.Nodup := by
+    (h : specElems es f k = .ok (f', k')) : ∀ c' ∈ es.deep, c'.Clean := by
   match es with
   | .nil => intro c' hc'; simp [Elems.deep] at hc'
   | .comp c t =>
@@ -1539,7 +1542,7 @@ theorem elems_deep_nodup (es : Elems) (f : Frame) (k : Ctr) (f' : Frame) (k' : C
     simp only [specElems] at h
     simpa [Elems.deep] using elems_deep_nodup t _ _ _ _ h
 theorem sections_deep_nodup (ss : Sections) (f : Frame) (k : Ctr) (f' : Frame) (k' : Ctr)
-    (h : specSections ss f k = .ok (f', k')) : ∀ c' ∈ ss.deep, c'.names.Nodup := by
+    (h : specSections ss f k = .ok (f', k')) : ∀ c' ∈ ss.deep, c'.Clean := by
   match ss with
   | .nil => intro c' hc'; simp [Sections.deep] at hc'
   | .elems vis es t =>
@@ -1661,7 +1664,7 @@ inductive FileAll : List (Bool × ClassSrc) → List ClassAst → Prop
 theorem specFile_ok (file : List (Bool × ClassSrc)) (acc : List ClassAst) (lo k : Ctr) (r : List ClassAst)
     (h : specFile file acc k = .ok r) (hlo : Leq lo k)
     (hp : (deepSymsList acc).Pairwise Sym.Distinct) (hb : ∀ y ∈ deepSymsList acc, y.Between lo k) :
-    (deepSymsList r).Pairwise Sym.Distinct ∧ (∀ c ∈ file, ∀ c' ∈ c.2.deep, c'.names.Nodup) ∧
+    (deepSymsList r).Pairwise Sym.Distinct ∧ (∀ c ∈ file, ∀ c' ∈ c.2.deep, c'.Clean) ∧
     ∃ As, FileAll file As ∧ r = As.foldl dictSet acc := by
   induction file generalizing acc k with
   | nil =>
@@ -1706,5 +1709,157 @@ theorem specFile_err (file : List (Bool × ClassSrc)) (acc : List ClassAst) (k :
     split at h
     · exact ih _ _ h
     · next e' he => simp only [Except.error.injEq] at h; subst h; exact class_err c _ _ he
+
+/-! ## Acceptance: without a repeated component name and without an import clash the walk succeeds -/
+
+def Elems.names (es : Elems) : List String := es.clauses.flatMap Clause.names
+def Sections.names (ss : Sections) : List String := ss.clauses.flatMap Clause.names
+
+
+theorem flatMap_views_names (l : List Clause) : (l.flatMap Clause.views).map (·.name) = l.flatMap Clause.names := by
+  induction l with
+  | nil => rfl
+  | cons x t ih => simp [List.flatMap_cons, ih, Clause.views, Clause.names, Function.comp_def]
+
+theorem names_of_views {S : List Sym} {l : List Clause} (h : S.map Sym.view = l.flatMap Clause.views) :
+    S.map (·.name) = l.flatMap Clause.names := by
+  rw [← flatMap_views_names, ← h]; simp [Function.comp_def, view_name]
+
+theorem importsFold_append_inv (a b : List ImpSrc) (i0 i2 : List (String × ImportVal))
+    (h : importsFold (a ++ b) i0 = .ok i2) : ∃ i1, importsFold a i0 = .ok i1 ∧ importsFold b i1 = .ok i2 := by
+  induction a generalizing i0 with
+  | nil => exact ⟨i0, rfl, by simpa using h⟩
+  | cons x t ih =>
+    simp only [List.cons_append, importsFold] at h ⊢
+    split at h
+    · next imps hx => exact ih _ h
+    · cases h
+
+mutual
+theorem class_accepted (c : ClassSrc) (k : Ctr) (h : ∀ c' ∈ c.deep, c'.Clean) : ∃ a k', specClass c k = .ok (a, k') := by
+  match c with
+  | .mk hd first ss =>
+    have hown := h (.mk hd first ss) (by simp [ClassSrc.deep])
+    obtain ⟨hn, imps, hi⟩ := hown
+    simp only [ClassSrc.names, ClassSrc.clauses, List.flatMap_append] at hn
+    simp only [ClassSrc.imps] at hi
+    obtain ⟨i1, hi1, hi2⟩ := importsFold_append_inv _ _ _ _ hi
+    obtain ⟨f1, k1, h1⟩ := elems_accepted first (Frame.new hd.kind hd.partial_ hd.encapsulated) k
+      (by simpa [Frame.new, ClassInfo.new, Elems.names] using (List.nodup_append.mp hn).1)
+      ⟨i1, by simpa [Frame.new, ClassInfo.new] using hi1⟩
+      (fun c' hc' => h c' (by simp [ClassSrc.deep, hc']))
+    have g1 := elems_grow _ _ _ _ _ h1
+    obtain ⟨S1, hS1, hv1, _⟩ := g1.syms
+    have hnames1 : f1.info.symbols.map (·.name) = first.names := by
+      have : S1.map (·.name) = first.names := names_of_views hv1
+      rw [hS1]; simpa [Frame.new, ClassInfo.new] using this
+    have himp1 : f1.info.imports = i1 := by
+      have := g1.imps
+      simp only [Frame.new, ClassInfo.new] at this
+      rw [hi1] at this
+      exact (Except.ok.inj this).symm
+    obtain ⟨f2, k2, h2⟩ := sections_accepted ss { f1 with closed := f1.closed ++ [none] } k1
+      (by simpa [hnames1, Elems.names, Sections.names] using hn)
+      ⟨imps, by simpa [himp1] using hi2⟩
+      (fun c' hc' => h c' (by simp [ClassSrc.deep, hc']))
+    simp only [specClass, h1, h2]
+    exact ⟨_, _, rfl⟩
+theorem elems_accepted (es : Elems) (f : Frame) (k : Ctr)
+    (hn : (f.info.symbols.map (·.name) ++ es.names).Nodup)
+    (hi : ∃ imps, importsFold es.imps f.info.imports = .ok imps)
+    (h : ∀ c' ∈ es.deep, c'.Clean) : ∃ f' k', specElems es f k = .ok (f', k') := by
+  match es with
+  | .nil => exact ⟨f, k, rfl⟩
+  | .comp c t =>
+    simp only [Elems.names, Elems.clauses, List.flatMap_cons] at hn
+    have hc : specClause c f k = .ok (_, _) := specClause_ok.mpr ⟨
+      (List.nodup_append.mp (List.nodup_append.mp hn).2.1).1,
+      fun n hn1 hn2 => (List.nodup_append.mp hn).2.2 n hn2 n (List.mem_append_left _ hn1) rfl, rfl, rfl⟩
+    simp only [specElems, hc]
+    apply elems_accepted t
+    · simpa [clauseSyms_names, Elems.names, List.append_assoc] using hn
+    · simpa [Elems.imps] using hi
+    · intro c' hc'; exact h c' (by simpa [Elems.deep] using hc')
+  | .ext e t =>
+    simp only [specElems]
+    apply elems_accepted t
+    · simpa [Frame.addExt, Elems.names, Elems.clauses] using hn
+    · simpa [Frame.addExt, Elems.imps] using hi
+    · intro c' hc'; exact h c' (by simpa [Elems.deep] using hc')
+  | .imp i t =>
+    obtain ⟨imps, hi⟩ := hi
+    simp only [Elems.imps, importsFold] at hi
+    split at hi
+    · next imps1 hx =>
+      simp only [specElems, hx]
+      apply elems_accepted t
+      · simpa [Elems.names, Elems.clauses] using hn
+      · exact ⟨imps, hi⟩
+      · intro c' hc'; exact h c' (by simpa [Elems.deep] using hc')
+    · cases hi
+  | .cls c t =>
+    obtain ⟨a, k1, hc⟩ := class_accepted c k (fun c' hc' => h c' (by simp [Elems.deep, hc']))
+    simp only [specElems, hc]
+    apply elems_accepted t
+    · simpa [Frame.attach, Elems.names, Elems.clauses] using hn
+    · simpa [Frame.attach, Elems.imps] using hi
+    · intro c' hc'; exact h c' (by simp [Elems.deep, hc'])
+  | .short s t =>
+    simp only [specElems]
+    apply elems_accepted t
+    · simpa [Frame.attach, Elems.names, Elems.clauses] using hn
+    · simpa [Frame.attach, Elems.imps] using hi
+    · intro c' hc'; exact h c' (by simpa [Elems.deep] using hc')
+theorem sections_accepted (ss : Sections) (f : Frame) (k : Ctr)
+    (hn : (f.info.symbols.map (·.name) ++ ss.names).Nodup)
+    (hi : ∃ imps, importsFold ss.imps f.info.imports = .ok imps)
+    (h : ∀ c' ∈ ss.deep, c'.Clean) : ∃ f' k', specSections ss f k = .ok (f', k') := by
+  match ss with
+  | .nil => exact ⟨f, k, rfl⟩
+  | .elems vis es t =>
+    obtain ⟨imps, hi⟩ := hi
+    simp only [Sections.imps] at hi
+    obtain ⟨i1, hi1, hi2⟩ := importsFold_append_inv _ _ _ _ hi
+    simp only [Sections.names, Sections.clauses, List.flatMap_append] at hn
+    obtain ⟨f1, k1, h1⟩ := elems_accepted es f k
+      (by rw [← List.append_assoc] at hn; exact (List.nodup_append.mp hn).1)
+      ⟨i1, hi1⟩ (fun c' hc' => h c' (by simp [Sections.deep, hc']))
+    have g1 := elems_grow _ _ _ _ _ h1
+    obtain ⟨S1, hS1, hv1, _⟩ := g1.syms
+    have hnames1 : f1.info.symbols.map (·.name) = f.info.symbols.map (·.name) ++ es.names := by
+      have : S1.map (·.name) = es.names := names_of_views hv1
+      rw [hS1]; simp [this]
+    have himp1 : f1.info.imports = i1 := by
+      have := g1.imps
+      rw [hi1] at this
+      exact (Except.ok.inj this).symm
+    simp only [specSections, h1]
+    apply sections_accepted t
+    · simpa [hnames1, Elems.names, Sections.names, List.append_assoc] using hn
+    · exact ⟨imps, by simpa [himp1] using hi2⟩
+    · intro c' hc'; exact h c' (by simp [Sections.deep, hc'])
+  | .eqs _ _ t =>
+    simp only [specSections]
+    apply sections_accepted t
+    · simpa [Sections.names, Sections.clauses] using hn
+    · simpa [Sections.imps] using hi
+    · intro c' hc'; exact h c' (by simpa [Sections.deep] using hc')
+  | .algs _ _ t =>
+    simp only [specSections]
+    apply sections_accepted t
+    · simpa [Sections.names, Sections.clauses] using hn
+    · simpa [Sections.imps] using hi
+    · intro c' hc'; exact h c' (by simpa [Sections.deep] using hc')
+end
+
+theorem file_accepted (file : List (Bool × ClassSrc)) (acc : List ClassAst) (k : Ctr)
+    (h : ∀ c ∈ file, ∀ c' ∈ c.2.deep, c'.Clean) : ∃ r, specFile file acc k = .ok r := by
+  induction file generalizing acc k with
+  | nil => exact ⟨acc, rfl⟩
+  | cons x t ih =>
+    obtain ⟨fin, c⟩ := x
+    obtain ⟨a, k1, hc⟩ := class_accepted c k (h (fin, c) (by simp))
+    simp only [specFile, hc]
+    exact ih _ _ (fun c0 hc0 => h c0 (by simp [hc0]))
 
 end PymocaVerif.ClassAsm
